@@ -2252,3 +2252,92 @@ def no_single_precision(db, chk, cfg, rule="FLOAT.double-only"):
     if n < 200:
         raise AnalysisBroken("FLOAT.double-only: only %d library functions scanned" % n)
     return n
+
+
+# ---------------------------------------------------------------------------
+# RectClip64::GetNextLocation: where the path goes after leaving a side region (C08)
+# ---------------------------------------------------------------------------
+
+def next_location_table(db, chk, cfg, rule="T.next-location"):
+    """From the region outside side S the path's next vertex that is no longer beyond S is classified: beyond the *opposite* side first
+    (then IsClockwise must decide the way round with a cross product), else beyond one of the two adjacent sides, else inside.  The
+    if-chain of each of the four cases is interpreted on every position of the vertex against the rectangle (x and y in five positions:
+    below, on the low edge, between, on the high edge, above - boundaries count as beyond, as in the code); a vertex in a corner zone
+    that is filed under an adjacent side instead of the opposite one makes the clipper add the wrong corners."""
+    from ..astq import if_parts
+    f = db.one("RectClip64::GetNextLocation")
+    sw = [x for x in walk(f.body) if x.get("kind") == "SwitchStmt"]
+    if len(sw) != 1:
+        raise AnalysisBroken("GetNextLocation: switch on the current location not found")
+    loc_enum = None
+    for en, vals in db.enums.items():
+        if set(("Left", "Top", "Right", "Bottom", "Inside")) <= set(vals):
+            loc_enum = list(vals)
+    if loc_enum is None:
+        raise AnalysisBroken("enum Location not found")
+    cases = {}
+    for c in walk(kids(sw[0])[-1]):
+        if c.get("kind") == "CaseStmt":
+            lab = canon(kids(c)[0])
+            for nm in loc_enum:
+                if lab.endswith(nm):
+                    cases[nm] = c
+    pname = f.params[0]["name"]
+    L, T, R, B = 10, 10, 20, 20
+    POS = (5, 10, 15, 20, 25)
+    OPP = {"Left": "Right", "Right": "Left", "Top": "Bottom", "Bottom": "Top"}
+
+    def beyond(side, x, y):
+        return {"Left": x <= L, "Right": x >= R, "Top": y <= T, "Bottom": y >= B}[side]
+    n = 0
+    for side in ("Left", "Top", "Right", "Bottom"):
+        c = cases.get(side)
+        if c is None:
+            raise AnalysisBroken("GetNextLocation: case Location::%s not found" % side)
+        # the classification chain: the if statement of this case (it follows the scan loop)
+        chain = None
+        nodes = [c] + [y for y in walk(sw[0]) if y.get("kind") == "IfStmt"]
+        stmts = []
+        cur = c
+        # statements of a case: its own sub-statement plus the following siblings up to the next case / break
+        body = kids(kids(sw[0])[-1])
+        idx = [i for i, y in enumerate(body) if y is c][0]
+        seq = [kids(c)[-1]] + list(body[idx + 1:])
+        for y in seq:
+            if y.get("kind") in ("CaseStmt", "DefaultStmt"):
+                break
+            if y.get("kind") == "IfStmt":
+                chain = y
+                break
+        if chain is None:
+            raise AnalysisBroken("GetNextLocation: classification chain of case %s not found" % side)
+        for x in POS:
+            for y0 in POS:
+                if beyond(side, x, y0):
+                    continue            # still in the region of this side: consumed by the scan loop
+                key = "%s[i]" % pname
+                env = {key + ".x": x, key + ".y": y0, "rect_.left": L, "rect_.top": T, "rect_.right": R, "rect_.bottom": B, "i": 1, "highI": 5,
+                       "loc": loc_enum.index(side)}
+                it = Interp(db, env)
+                try:
+                    it.exec(chain)
+                except Unsupported as e:
+                    raise AnalysisBroken("cannot interpret case %s of GetNextLocation: %s" % (side, e))
+                except Exception as e:
+                    if e.__class__.__name__ in ("_Break", "_Continue"):
+                        pass
+                    else:
+                        raise
+                got = loc_enum[it.env["loc"]] if isinstance(it.env.get("loc"), int) and 0 <= it.env["loc"] < len(loc_enum) else it.env.get("loc")
+                if beyond(OPP[side], x, y0):
+                    want = OPP[side]
+                else:
+                    adj = [s0 for s0 in ("Left", "Top", "Right", "Bottom") if s0 not in (side, OPP[side]) and beyond(s0, x, y0)]
+                    want = adj[0] if adj else "Inside"
+                n += 1
+                chk.instance(rule, {"from": side, "x": x, "y": y0, "classified": got, "cfg": cfg} if n % 3 == 1 else None, ok=(got == want))
+                if got != want:
+                    chk.violation(rule, f.qual, "%s|%d,%d" % (side, x, y0), "coming from the %s region, a vertex at (%d,%d) against the rectangle [%d..%d]x[%d..%d] is filed under %s; "
+                                  "it lies beyond the %s side and must be filed under %s (the opposite side takes precedence: the way round the rectangle is then "
+                                  "decided by a cross product, not assumed)" % (side, x, y0, L, R, T, B, got, want, want), where(chain), cfg=cfg)
+    return n
